@@ -19,6 +19,7 @@ def handle (j : Json) : Except String Json := do
   | "fusion" => Driver.fusion j
   | "da" => Driver.da j
   | "hoist" => Driver.hoist j
+  | "trace_ok" => Driver.traceOK j
   | "cursor" => Driver.cursor j
   | "rankids" => Driver.rankids j
   | "tmp_issued" => Driver.tmpIssued j
